@@ -125,6 +125,223 @@ theorem parse_render (t : Time) (n : Notation) (hv : n.Valid)
         simp only [if_neg h60, Time.mk.injEq]
         constructor <;> omega
 
+/-- The reader on the date-time fields of the whole second `loc` followed by any fraction-and-zone
+    text: it yields `loc` less the zone's offset, whatever the tail denotes. -/
+theorem parse_dateTimeText (loc : Int) (leap : Nat) (sep : Char) (tail : Str)
+    (hsep : sep = 'T' ∨ sep = 't' ∨ sep = ' ')
+    (hyear : 0 ≤ (civilFromDays (loc / 86400)).y ∧ (civilFromDays (loc / 86400)).y ≤ 9999)
+    (hleapb : leap ≤ 1) (hl59 : leap = 1 → loc % 60 = 59) :
+    parseRfc3339 (dateTimeText loc leap sep ++ tail) =
+      (match fracPart tail with
+      | none => none
+      | some (nano, zone) =>
+        match parseZone zone with
+        | none => none
+        | some off => some { secs := loc - off, nanos := (if leap = 1 then 1000000000 else 0) + nano }) := by
+  simp only [dateTimeText]
+  obtain ⟨hdays, hm1, hm12, hd1, hdim⟩ := civil_facts (loc / 86400)
+  generalize hc : civilFromDays (loc / 86400) = c at *
+  have hdim31 : c.d ≤ 31 := by
+    have : daysInMonth c.y c.m ≤ 31 := by
+      unfold daysInMonth; split
+      · split <;> omega
+      · split <;> omega
+    omega
+  simp only [yearText, if_pos hyear]
+  generalize hsod : (loc % 86400).toNat = sod
+  have hsodb : sod < 86400 := by omega
+  rw [parse_fields (by omega) (by omega) (by omega) (by omega) (by omega) (by omega)]
+  rw [if_neg (not_not_intro hsep)]
+  have e1 : ((c.y.toNat : Nat) : Int) = c.y := by omega
+  have e2 : ((c.m.toNat : Nat) : Int) = c.m := by omega
+  have e3 : ((c.d.toNat : Nat) : Int) = c.d := by omega
+  have hdate : ¬ (c.m.toNat < 1 ∨ c.m.toNat > 12 ∨ c.d.toNat < 1 ∨
+      ((c.d.toNat : Nat) : Int) > daysInMonth (c.y.toNat : Nat) (c.m.toNat : Nat)) := by
+    rw [e1, e2, e3]; omega
+  rw [if_neg hdate]
+  have htime : ¬ (sod / 3600 ≥ 24 ∨ sod % 3600 / 60 ≥ 60 ∨ sod % 60 + leap > 60) := by omega
+  rw [if_neg htime]
+  cases hfp : fracPart tail with
+  | none => rfl
+  | some p =>
+    obtain ⟨nano, zone⟩ := p
+    simp only
+    cases hz : parseZone zone with
+    | none => rfl
+    | some off =>
+      simp only [e1, e2, e3, hdays]
+      congr 1
+      have hA : loc = loc / 86400 * 86400 + (sod : Int) := by omega
+      have hB : (sod : Int) = ((sod / 3600 : Nat) : Int) * 3600 + ((sod % 3600 / 60 : Nat) : Int) * 60 + ((sod % 60 : Nat) : Int) := by
+        omega
+      clear hdate hdim hdim31 htime hm1 hm12 hd1 hdays e1 e2 e3 hyear hc
+      by_cases hl : leap = 1
+      · have h59 := hl59 hl
+        have h60 : sod % 60 + leap = 60 := by omega
+        have hs59 : ((sod % 60 : Nat) : Int) = 59 := by omega
+        simp only [h60, if_true, if_pos hl, Time.mk.injEq, and_true]
+        omega
+      · have hl0 : leap = 0 := by omega
+        have h60 : ¬ (sod % 60 + leap = 60) := by omega
+        simp only [if_neg h60, if_neg hl, Time.mk.injEq]
+        subst hl0
+        constructor
+        · simp only [Nat.add_zero]; omega
+        · first | omega | rfl | trivial
+
+-- ------------------------------------------------------------------ AutoSi timestamps with an offset
+
+theorem digitsVal_three {k : Nat} (h : k < 1000) : digitsVal (three k) 0 = k := by
+  simp only [three, digitsVal, dig_digitChar, Option.getD_some]; omega
+
+theorem digitsVal_six {k : Nat} (h : k < 1000000) : digitsVal (six k) 0 = k := by
+  simp only [six, digitsVal, dig_digitChar, Option.getD_some]; omega
+
+theorem parseFrac_digits {ds rest : Str} (hds : ∀ c ∈ ds, isDig c = true) (hne : ds ≠ []) (hlen : ds.length ≤ 9)
+    (hrest : ∀ c r, rest = c :: r → isDig c = false) :
+    parseFrac (ds ++ rest) = some (digitsVal ds 0 * 10 ^ (9 - ds.length), rest) := by
+  obtain ⟨ht, hd⟩ := takeWhile_isDig_append hds hrest
+  simp only [parseFrac, ht, hd]
+  have : ds.isEmpty = false := by cases ds <;> simp_all
+  simp only [this, Bool.false_eq_true, if_false, List.take_of_length_le hlen]
+
+/-- The AutoSi fraction reads back as the sub-second part. -/
+theorem fracPart_autosi {n : Nat} (h : n < 1000000000) {rest : Str}
+    (hrest : ∀ c r, rest = c :: r → isDig c = false ∧ c ≠ '.') :
+    fracPart (fracAutoSi n ++ rest) = some (n, rest) := by
+  have hnd : ∀ c r, rest = c :: r → isDig c = false := fun c r e => (hrest c r e).1
+  unfold fracAutoSi
+  by_cases h0 : n = 0
+  · subst h0
+    simp only [if_true, List.nil_append]
+    cases hr : rest with
+    | nil => rfl
+    | cons c r =>
+      have hne := (hrest c r hr).2
+      unfold fracPart
+      split
+      · rename_i heq; simp only [List.cons.injEq] at heq; exact absurd heq.1 hne
+      · rfl
+  · simp only [if_neg h0]
+    by_cases h6 : n % 1000000 = 0
+    · simp only [if_pos h6, List.cons_append, fracPart]
+      have hall : ∀ c ∈ three (n / 1000000), isDig c = true := by
+        intro c hc; simp only [three, List.mem_cons, List.not_mem_nil, or_false] at hc
+        rcases hc with rfl | rfl | rfl <;> exact isDig_digitChar _
+      rw [parseFrac_digits hall (by simp [three]) (by simp [three]) hnd, digitsVal_three (by omega)]
+      simp only [three, List.length_cons, List.length_nil]
+      congr 2; omega
+    · simp only [if_neg h6]
+      by_cases h3 : n % 1000 = 0
+      · simp only [if_pos h3, List.cons_append, fracPart]
+        have hall : ∀ c ∈ six (n / 1000), isDig c = true := by
+          intro c hc; simp only [six, List.mem_cons, List.not_mem_nil, or_false] at hc
+          rcases hc with rfl | rfl | rfl | rfl | rfl | rfl <;> exact isDig_digitChar _
+        rw [parseFrac_digits hall (by simp [six]) (by simp [six]) hnd, digitsVal_six (by omega)]
+        simp only [six, List.length_cons, List.length_nil]
+        congr 2; omega
+      · simp only [if_neg h3, List.cons_append, fracPart]
+        have := parseFrac_nine h (extra := []) (rest := rest) (by simp) hnd
+        simpa using this
+
+/-- whole-minute offsets strictly inside a day -/
+def OffsetOk (off : Int) : Prop := -86400 < off ∧ off < 86400 ∧ off % 60 = 0
+
+theorem zoneTextOff_head {off : Int} : ∀ c r, zoneTextOff off = c :: r → isDig c = false ∧ c ≠ '.' := by
+  intro c r h
+  unfold zoneTextOff at h
+  split at h
+  · simp only [List.cons.injEq] at h; obtain ⟨rfl, _⟩ := h; decide
+  · simp only [List.cons.injEq] at h
+    obtain ⟨rfl, _⟩ := h
+    split <;> decide
+
+theorem parseZone_zoneTextOff {off : Int} (h : OffsetOk off) : parseZone (zoneTextOff off) = some off := by
+  obtain ⟨hlo, hhi, hm⟩ := h
+  unfold zoneTextOff
+  by_cases h0 : off = 0
+  · subst h0; rfl
+  · simp only [if_neg h0, two, List.cons_append, List.nil_append, parseZone]
+    have ha : off.natAbs < 86400 := by omega
+    have h1 : num2 (digitChar (off.natAbs / 3600 / 10)) (digitChar (off.natAbs / 3600)) = some (off.natAbs / 3600) :=
+      num2_two (by omega)
+    have h2 : num2 (digitChar (off.natAbs % 3600 / 60 / 10)) (digitChar (off.natAbs % 3600 / 60)) =
+        some (off.natAbs % 3600 / 60) := num2_two (by omega)
+    simp only [h1, h2, ne_eq, not_true_eq_false, if_false]
+    have hb : ¬ (off.natAbs % 3600 / 60 ≥ 60 ∨ off.natAbs / 3600 * 3600 + off.natAbs % 3600 / 60 * 60 ≥ 86400) := by
+      omega
+    by_cases hneg : off < 0
+    · simp [hneg, hb]
+      omega
+    · simp [hneg, hb]
+      omega
+
+/-- What `AutoSi` writes for an instant held with an offset reads back as that instant. -/
+theorem parse_fmtAutoSi (t : Time) (off : Int) (hoff : OffsetOk off)
+    (hyear : 0 ≤ (civilFromDays ((t.secs + off) / 86400)).y ∧ (civilFromDays ((t.secs + off) / 86400)).y ≤ 9999)
+    (hnanos : t.nanos < 2000000000) (hleap : t.nanos ≥ 1000000000 → t.secs % 60 = 59) :
+    parseRfc3339 (fmtAutoSi t off) = some t := by
+  unfold fmtAutoSi
+  rw [List.append_assoc]
+  have hm := hoff.2.2
+  rw [parse_dateTimeText _ _ 'T' _ (Or.inl rfl) hyear (by split <;> omega)
+    (by intro h; split at h
+        · rename_i hl; have := hleap hl; omega
+        · cases h)]
+  rw [fracPart_autosi (Nat.mod_lt _ (by omega)) zoneTextOff_head]
+  simp only [parseZone_zoneTextOff hoff]
+  congr 1
+  cases t with
+  | mk secs nanos =>
+    simp only at *
+    by_cases hl : nanos ≥ 1000000000
+    · simp only [if_pos hl, if_true, Time.mk.injEq]
+      constructor <;> omega
+    · simp only [if_neg hl, Time.mk.injEq]
+      simp only [show ((0 : Nat) = 1) = False from by simp, if_false]
+      constructor <;> omega
+
+theorem digitChar_ne_zulu (k : Nat) : ¬ (digitChar k = 'Z' ∨ digitChar k = 'z') := by
+  intro h
+  have hd := dig_digitChar k
+  have hZ : dig 'Z' = none := by decide
+  have hz : dig 'z' = none := by decide
+  rcases h with h | h <;> rw [h] at hd
+  · rw [hZ] at hd; cases hd
+  · rw [hz] at hd; cases hd
+
+theorem zoneOf_append_zone (a : Str) {off : Int} (h : OffsetOk off) : zoneOf (a ++ zoneTextOff off) = some off := by
+  unfold zoneOf
+  by_cases h0 : off = 0
+  · subst h0
+    simp [zoneTextOff]
+  · have hz : zoneTextOff off = [(if off < 0 then '-' else '+'), digitChar (off.natAbs / 3600 / 10), digitChar (off.natAbs / 3600), ':',
+        digitChar (off.natAbs % 3600 / 60 / 10), digitChar (off.natAbs % 3600 / 60)] := by
+      simp [zoneTextOff, h0, two]
+    have hlast : (a ++ zoneTextOff off).getLast? = some (digitChar (off.natAbs % 3600 / 60)) := by
+      rw [hz]; simp
+    rw [hlast]
+    simp only [if_neg (digitChar_ne_zulu _)]
+    have hlen : (zoneTextOff off).length = 6 := by rw [hz]; rfl
+    have hdrop : (a ++ zoneTextOff off).drop ((a ++ zoneTextOff off).length - 6) = zoneTextOff off := by
+      rw [List.length_append, hlen, show a.length + 6 - 6 = a.length from by omega]
+      exact List.drop_left
+    rw [hdrop]
+    exact parseZone_zoneTextOff h
+
+/-- A timestamp text written by `AutoSi` is its own normal form: reading it and writing it again
+    gives the same text. -/
+theorem normTimeStamp_fmtAutoSi (t : Time) (off : Int) (hoff : OffsetOk off)
+    (hyear : 0 ≤ (civilFromDays ((t.secs + off) / 86400)).y ∧ (civilFromDays ((t.secs + off) / 86400)).y ≤ 9999)
+    (hnanos : t.nanos < 2000000000) (hleap : t.nanos ≥ 1000000000 → t.secs % 60 = 59) :
+    normTimeStamp (fmtAutoSi t off) = some (fmtAutoSi t off) := by
+  unfold normTimeStamp
+  rw [parse_fmtAutoSi t off hoff hyear hnanos hleap]
+  have : zoneOf (fmtAutoSi t off) = some off := by
+    unfold fmtAutoSi
+    exact zoneOf_append_zone _ hoff
+  rw [this]
+
 /-- The notation the library writes: UTC, `T`, `Z`, whole seconds. -/
 def stdNotation : Notation := ⟨0, 'T', some 'Z', '-', false, []⟩
 
